@@ -157,7 +157,9 @@ def run(res, tier, seed):
         for p_ in range(W):
             samples += [300, 310, cbb[0] if p_ == 0 else 400 + p_ % 500, cbb[1] if p_ == 0 else 350 + p_ % 400, cbb[2] if p_ == 0 else 360 + p_ % 380]
         start = datetime.datetime(2003, 3, 4, 5, 6, 7) if sc == "noaa16" else datetime.datetime(2010, 3, 4, 5, 6, 7)
-        lines = l1b.default_lines(fmt, n, start, numbers=lns, counts=samples, switch=[1 if i in seg else 0 for i in range(n)])
+        flagged = range(18, 24)      # six lines without earth location: blanked themselves, but their telemetry is valid and used
+        lines = l1b.default_lines(fmt, n, start, numbers=lns, counts=samples, switch=[1 if i in seg else 0 for i in range(n)],
+                                  qual=[(1 << 27) if i in flagged else 0 for i in range(n)])
         for i, l in enumerate(lines):
             k = (lns[i] - residue) % 5
             s3 = 0 if k == 0 else tv[k][0]
@@ -177,8 +179,8 @@ def run(res, tier, seed):
         for chan in range(3):
             col = ch[:, 0, 3 + chan]
             for i in range(n):
-                if chan == 0 and i in seg:
-                    continue      # 3b is not delivered on these lines (C14)
+                if (chan == 0 and i in seg) or i in flagged:
+                    continue      # 3b is not delivered on these lines (C14) / flagged lines are blanked (C07)
                 if math.isnan(col[i]) or abs(float(col[i]) - tmean4) > 1.0:
                     res.violations.append(("through the reader, a scene at the internal-target count does not read the internal-target temperature within 1 K",
                                            dict(ctx, channel=thermal.IR[chan], line_index=i, bt=float(col[i]))))
